@@ -7,7 +7,7 @@ not fooled by comments / strings / char literals / lifetimes, and lookup of
 import re
 
 class Tok:
-    __slots__ = ("kind", "s", "e", "text")
+    __slots__ = ("kind", "s", "e", "text", "_closure_done")
     def __init__(self, kind, s, e, text):
         self.kind, self.s, self.e, self.text = kind, s, e, text
     def __repr__(self):
